@@ -212,6 +212,17 @@ def body_target(case):
         tm = Time([Time(case["date"], format="isot", scale="utc") + TimeDelta(0.5 * case["T"], format="sec")])
         with quiet():
             case = dict(case, sun_cut=float(c13.body_altitude("sun", dict(case, **{"ra": 0, "dec": 0}), tm)[0]) + case["sun_rel"])
+    if case.get("rel"):
+        # (same helper for the Moon altitude and the phase-angle limit; the instant is where the source is aimed at the limb)
+        from astropy.time import TimeDelta
+
+        which, _, off = case["rel"]
+        tm = Time([Time(case["date"], format="isot", scale="utc") + TimeDelta(0.5 * case["T"], format="sec")])
+        with quiet():
+            if which == "moon":
+                case = dict(case, moon_cut=float(c13.body_altitude("moon", dict(case, **{"ra": 0, "dec": 0}), tm)[0]) + off)
+            elif which == "phase":
+                case = dict(case, phase_cut=min(max(float(c13.moon_phase(tm)[0]) + 1.5 * off, 0.0), math.pi))
     conf = c13._config(case)
     conf.detector.sun_moon.sun_moon_cuts = case["cuts_on"]
     N = case["n"]
@@ -459,6 +470,7 @@ SUBCHECKS = [
                 "cuts_on": st.booleans(),
                 "sibling": st.sampled_from([None, "reverse", "roll", "interleave"]),
                 "sun_rel": st.one_of(st.none(), st.floats(math.radians(-1.5), math.radians(1.5))),
+                "rel": st.one_of(st.none(), st.tuples(st.sampled_from(["moon", "phase", "phase"]), st.just(0.5), st.floats(math.radians(-1.0), math.radians(1.0))).map(list)),
                 "lenfrac": st.lists(st.one_of(st.floats(0.0, 1.2), st.sampled_from([0.0, 1.0, 2.0, 2.0, 0.999999])), min_size=3, max_size=24),
                 **arrays,
             }
